@@ -155,6 +155,17 @@ func candidates(rs *gj5s.RuleSpec) []cand {
 				m.Set(fd, protoreflect.ValueOfBytes(make([]byte, n)))
 			}, ok: ok, zero: n == 0})
 		}
+	case "map":
+		for n := 0; n <= 3; n++ {
+			n := n
+			ok := (rs.MinPairs == nil || uint64(n) >= *rs.MinPairs) && (rs.MaxPairs == nil || uint64(n) <= *rs.MaxPairs)
+			out = append(out, cand{name: fmt.Sprintf("%d pairs", n), set: func(m protoreflect.Message, fd protoreflect.FieldDescriptor) {
+				mp := m.Mutable(fd).Map()
+				for i := 0; i < n; i++ {
+					mp.Set(protoreflect.ValueOfString(fmt.Sprintf("k%d", i)).MapKey(), protoreflect.ValueOfString("v"))
+				}
+			}, ok: ok, zero: n == 0})
+		}
 	case "bool":
 		for _, b := range []bool{false, true} {
 			b := b
